@@ -127,7 +127,7 @@ def r3(chk):
             elt, tgt, it, ifs = aud.single_gen(cs[0])
             detail = dict(elt=norm(elt), iter=norm(it), ifs=[norm(i) for i in ifs])
             ok = norm(elt) == f"self.assort({norm(tgt)})" and norm(it) == "cvr_list" and len(ifs) == 1 \
-                and norm(ifs[0]) == f"filtr({norm(tgt)})"
+                and norm(ifs[0]) == f"{aud.style_filter(mean)[0].name}({norm(tgt)})"
     chk.ob("C03.R3", W("Assorter.mean"), "mean-over-filtered-cards", ok,
            "mean == np.mean of the assorter over exactly the filtered cards of cvr_list", node=rets[0] if rets else mean,
            strength="N", **detail)
@@ -162,23 +162,26 @@ def r3(chk):
             same_f, n, _ = aud.cond_equiv(c_code, c_want)
             ok = (norm(elt) == tv and norm(src) == "cvr_list" and same_f and "n" in keys and "tot" in keys
                   and keys["n"][1] == "1" and keys["tot"][1] == f"self.assort({lv})"
-                  and keys["n"][0] == keys["tot"][0] == f"tally_pool_dict[{lv}.tally_pool]"
+                  and keys["n"][0] == keys["tot"][0] and keys["n"][0].endswith(f"[{lv}.tally_pool]") and "[" not in keys["n"][0][:-len(f"[{lv}.tally_pool]")]
                   and keys["n"][2] == keys["tot"][2] == "Add" and all(parent(s) is l for s in aug))
     chk.ob("C03.R3", W("Assorter.set_tally_pool_means"), "tot-and-n-over-same-cards", ok,
            "numerator (sum of assorter values) and denominator (count) accumulate in one loop over the cards that pass the "
            "style filter and are pooled, keyed by the card's own tally pool", node=acc[0] if acc else stp, strength="N", **detail)
     # the stored mean is tot/n
     ok = False
+    dct = "tally_pool_dict"
+    if acc and "n" in detail.get("accumulators", {}):
+        dct = detail["accumulators"]["n"][0].split("[")[0]
     for t, v, s in stores(stp):
         if isinstance(t, ast.Subscript) and norm(t.value) == "self.tally_pool_means":
             p = norm(t.slice)
             if isinstance(v, ast.IfExp):
-                n0 = norm(v.test) == f'tally_pool_dict[{p}]["n"]==0' or norm(v.test) == f"tally_pool_dict[{p}]['n']==0"
-                div = norm(v.orelse) in (f'tally_pool_dict[{p}]["tot"]/tally_pool_dict[{p}]["n"]',
-                                         f"tally_pool_dict[{p}]['tot']/tally_pool_dict[{p}]['n']")
+                n0 = norm(v.test) == f'{dct}[{p}]["n"]==0' or norm(v.test) == f"{dct}[{p}]['n']==0"
+                div = norm(v.orelse) in (f'{dct}[{p}]["tot"]/{dct}[{p}]["n"]',
+                                         f"{dct}[{p}]['tot']/{dct}[{p}]['n']")
                 ok = n0 and div and norm(v.body) in ("np.nan", "numpy.nan", "math.nan")
             elif isinstance(v, ast.BinOp) and isinstance(v.op, ast.Div):
-                ok = norm(v) in (f'tally_pool_dict[{p}]["tot"]/tally_pool_dict[{p}]["n"]',)
+                ok = norm(v) in (f'{dct}[{p}]["tot"]/{dct}[{p}]["n"]',)
     chk.ob("C03.R3", W("Assorter.set_tally_pool_means"), "pool-mean=tot/n", ok,
            "the stored pool mean is tot/n of the same pool (nan only for an empty pool)", node=stp, strength="N")
 
@@ -190,7 +193,7 @@ def _cond_with_filter(node, f, argname):
         return c_and(*parts) if isinstance(node.op, ast.And) else c_or(*parts)
     if isinstance(node, ast.UnaryOp) and isinstance(node.op, ast.Not):
         return c_not(_cond_with_filter(node.operand, f, argname))
-    if isinstance(node, ast.Call) and norm(node.func) == "filtr" and len(node.args) == 1:
+    if isinstance(node, ast.Call) and norm(node.func) == f.name and len(node.args) == 1:
         return f(norm(node.args[0]), lambda: Tx())
     return Tx().cond(node)
 
@@ -212,12 +215,14 @@ def r4(chk):
             if len(sts) == 1:
                 t, val, s = sts[0]
                 detail["statement"] = norm(s)
-                key = f"tally_pools[{v}.tally_pool]"
+                rn = [r.value.id for r in walk_local(pc) if isinstance(r, ast.Return) and isinstance(r.value, ast.Name)]
+                dn = rn[0] if rn else "tally_pools"
+                key = f"{dn}[{v}.tally_pool]"
                 forms = (f"{key}.union(set({v}.votes.keys()))", f"{key}.union({v}.votes.keys())", f"{key}|set({v}.votes.keys())",
                          f"{key}.union(set({v}.votes))", f"{key}|set({v}.votes)")
                 ok = norm(t) == key and norm(val) in forms or (isinstance(s, ast.AugAssign) and norm(t) == key and isinstance(s.op, ast.BitOr))
     rets = [n for n in walk_local(pc) if isinstance(n, ast.Return)]
-    ok = ok and len(rets) == 1 and norm(rets[0].value) == "tally_pools"
+    ok = ok and len(rets) == 1 and isinstance(rets[0].value, ast.Name)
     chk.ob("C03.R4", W("CVR.pool_contests"), "union-over-pooled-cards", ok,
            "for every pooled card the contests it lists are added to the set of its own tally pool (all cards visited)",
            node=pc, strength="N", **detail)
